@@ -38,6 +38,8 @@ def run_impl(case):
     if k == 'cache':
         return dict(direct=K14.run_impl(dict(case, form='direct')),
                     deco=K14.run_impl(dict(case, form='deco')))
+    if k == 'cache2':
+        return {f: run_cache2(case, f) for f in ('direct', 'deco')}
     if k == 'buffer':
         return {f: D.run_buffer(case['timeout'], case['script'], f) for f in ('direct', 'deco', 'ctor')}
     if k == 'batcher':
@@ -54,8 +56,58 @@ def run_impl(case):
     raise ValueError(k)
 
 
+def run_cache2(case, form):
+    """ONE options-form decorator object (no explicit mapping) applied to two functions vs. two
+    direct wrappings.  case['order'] interleaves the two functions' event lists (ev0 / ev1).
+    Returns [obs of function 0, obs of function 1], each in the format of K14.run_impl."""
+    import asyncio
+    import logging
+    logging.disable(logging.CRITICAL)
+    from aiuti.asyncio import threadsafe_async_cache
+    cur, ninv = [0, 0], [0, 0]
+
+    def mkfn(j):
+        async def f(*args, **kwargs):
+            ninv[j] += 1
+            await asyncio.sleep(0)
+            return K14.Res(cur[j])
+        return f
+    fns = [mkfn(0), mkfn(1)]
+    if form == 'direct':
+        ws = [threadsafe_async_cache(fns[0]), threadsafe_async_cache(fns[1])]
+    else:
+        deco = threadsafe_async_cache()
+        ws = [deco(fns[0]), deco(fns[1])]
+    evs = [case['ev0'], case['ev1']]
+    pos = [0, 0]
+    obs = [[], []]
+    loop = asyncio.new_event_loop()
+    try:
+        for j in case['order']:
+            if pos[j] >= len(evs[j]):
+                continue
+            ev = evs[j][pos[j]]
+            cur[j] = pos[j]
+            pos[j] += 1
+            ninv[j] = 0
+            args = [K14.VALUES[v][0]() for v in ev[1]]
+            kwargs = {K14.NAMES[n]: K14.VALUES[v][0]() for n, v in ev[2]}
+            try:
+                tag = K14._tag(loop.run_until_complete(ws[j](*args, **kwargs)))
+            except Exception:
+                tag = K14.ERR_TAG
+            obs[j].append([ninv[j], tag, []])
+    finally:
+        loop.close()
+    return obs
+
+
 def error_obs(case, o):
     k = case['k']
+    if k == 'cache2':
+        e = [[[9, K14.ERR_TAG, [K14.FOREIGN_TAG]] for _ in case['ev0']],
+             [[9, K14.ERR_TAG, [K14.FOREIGN_TAG]] for _ in case['ev1']]]
+        return dict(direct=e, deco=e)
     if k == 'cache':
         e = K14.error_obs(case, o)
         return dict(direct=e, deco=e)
@@ -117,6 +169,11 @@ def to_coq(case, o):
         f = lambda ob: C.coq_list([f'({a}, {r}, {_nats(c)})' for a, r, c in ob])
         return (f"CCache {K14._kind(case)} {C.coq_bool(case.get('prefill', False))} {K14._evs(case)} "
                 f"{f(o['direct'])} {f(o['deco'])}")
+    if k == 'cache2':
+        f = lambda ob: C.coq_list([f'({a}, {r}, {_nats(c)})' for a, r, c in ob])
+        e0, e1 = K14._evs(dict(events=case['ev0'])), K14._evs(dict(events=case['ev1']))
+        return (f"CCache2 {e0} {e1} {f(o['direct'][0])} {f(o['deco'][0])} "
+                f"{f(o['direct'][1])} {f(o['deco'][1])}")
     if k == 'buffer':
         t = 'None' if case['timeout'] is None else f"(Some {_N5(case['timeout'])})"
         sc = C.coq_list([f'Sub {C.coq_nat(e[1])}' if e[0] == 'sub' else f'BAdv {_N5(e[1])}' for e in case['script']])
@@ -130,6 +187,9 @@ def to_coq(case, o):
 
 def explain_exprs(case, o):
     k = case['k']
+    if k == 'cache2':
+        return (K14.explain_exprs(dict(kind='default', events=case['ev0']), o['deco'][0]) +
+                K14.explain_exprs(dict(kind='default', events=case['ev1']), o['deco'][1]))
     if k == 'cache':
         return K14.explain_exprs(case, o['deco'])
     if k == 'buffer':
@@ -148,6 +208,13 @@ def cache_case(kind, events, **kw):
     c = K14.mk(kind, events, **kw)
     c['k'] = 'cache'
     return c
+
+
+def cache2_case(ev0, ev1, order=None):
+    """one options-form decorator object applied to two functions (see run_cache2)"""
+    if order is None:
+        order = [i % 2 for i in range(2 * max(len(ev0), len(ev1)))]
+    return dict(k='cache2', ev0=[list(e) for e in ev0], ev1=[list(e) for e in ev1], order=list(order))
 
 
 def buffer_case(timeout, script):
@@ -215,6 +282,9 @@ def corpus():
         cache_case('dict', [k([0]), k([3]), k([0])], prefill=True),
         cache_case('default', [k([0]), k([0]), k([3])]),
         cache_case('lru1', [k([0]), k([3]), k([0])], loop='fresh'),
+        # one options-form decorator object reused for two functions: equal arguments must not share
+        cache2_case([k([0]), k([0]), k([3])], [k([0]), k([3]), k([0])]),
+        cache2_case([k([0]), k([1], [[0, 3]])], [k([1], [[0, 3]]), k([0]), k([0])], order=[0, 0, 1, 1, 1]),
         # the doctests of the batcher in all forms
         batcher_case(dict(max_batch_size=2), [c(1), c(2), c(3), c(4), a(1), f(0), f(1), a(60)]),
         # F7 (fixed): retention_timeout given through the decorator-with-options form
@@ -282,6 +352,12 @@ def gen_exhaustive(tier, seed):
                     if kind == 'default' and (pf or any(e[0] == 'evict' for e in sc)):
                         continue
                     out.append(cache_case(kind, sc, prefill=pf, loop=lp))
+    # cache: one options-form decorator object applied to two functions, every interleaving of
+    # two short call lists (same and different signatures)
+    la = [k([0]), k([0]), k([3])]
+    lb = [k([0]), k([3], [[0, 0]]), k([0])]
+    for order in sorted(set(itertools.permutations([0, 0, 0, 1, 1, 1]))):
+        out.append(cache2_case(la, lb, order=order))
     # loops: 1..3 loops one after another, each closed before the next / left open
     lcfgs = [{}, dict(max_batch_size=2), dict(max_batch_size=2, retention_timeout=40),
              dict(max_batch_size=1, max_concurrent_batches=1, batch_timeout=5, retention_timeout=5)]
@@ -377,6 +453,11 @@ def gen_search(tier, seed):
 def shrink_candidates(case):
     k = case['k']
     out = []
+    if k == 'cache2':
+        for name in ('ev0', 'ev1'):
+            for i in range(len(case[name])):
+                out.append(dict(case, **{name: case[name][:i] + case[name][i + 1:]}))
+        return out
     if k == 'cache':
         return [dict(x, k='cache') for x in K14.shrink_candidates(case)]
     if k in ('buffer', 'batcher'):
@@ -400,7 +481,7 @@ def shrink_candidates(case):
 
 
 def distribution(cases, obs):
-    d = dict(cache=0, buffer=0, batcher=0, loops=0, loops_threaded=0, loops_with_close=0,
+    d = dict(cache=0, cache2=0, buffer=0, batcher=0, loops=0, loops_threaded=0, loops_with_close=0,
              batches_started=0, callers_answered=0, flushes=0, joint_configs=0, default_configs=0)
     for o in OPTS:
         d['alone_' + o] = 0
@@ -442,7 +523,8 @@ RULE = ('cases = one scripted event list (virtual time, harness-owned batch / bu
         'must be equal (monitor) and equal to the reference semantics of coq/theories/Options.v for that configuration '
         '(agree).  exhaustive layer: batcher — every option alone at 2-3 non-default values, every joint assignment '
         '(4x3x3x3 = 108 configurations) x 6 probe scripts; buffer — 6 timeouts x 5 probes; cache — every mapping kind x '
-        'prefill x loop mode x 2 scripts (which mapping received the entries); per-loop registry — 1..3 loops one after '
+        'prefill x loop mode x 2 scripts (which mapping received the entries), and ONE options-form decorator object applied '
+        'to two functions vs. two direct wrappings, all 20 interleavings of two 3-call lists (stores must stay private); per-loop registry — 1..3 loops one after '
         'another (closed before the next / left open), every interleaving of two loops\' three segments, 3 loops round '
         'robin, 2..3 loops in real threads at once.  random layer: random configurations, scripts and loop plans.  '
         'non-trivial (Case_C15.nontrivial) = something was dispatched/flushed/invoked and, when an option is set, the '
